@@ -1,186 +1,15 @@
-import QcelVerif.Model.PeriodicTable
-import QcelVerif.Model.PeriodicTableBuild
-import QcelVerif.Lemmas.PStr
-import QcelVerif.Gen.PT
-import QcelVerif.Gen.Srd144
+import QcelVerif.Props.C01General
+import QcelVerif.Props.C01Faithful
+import QcelVerif.Props.C01Aliases
+import QcelVerif.Props.C01Nuclides
+import QcelVerif.Props.C01Anycase
 /-!
-# C01 — periodic-table lookups: property theorems
+# C01 — periodic-table lookups: property theorems (index)
 
-Two kinds of theorem:
- * **general** (any table, any ASCII text): case-insensitivity, "a successful lookup is justified
-   by one of the three alias relations", strict mode, period/group layout for every Z;
+ * **general** (`C01General`; any table, any ASCII text): `resolve_case_insensitive`,
+   `accessors_case_insensitive`, `no_wrong_species`, `strict_exact`, `period_group_standard`;
  * **table-wide** (`decide +kernel` over the *generated* tables — the whole finite table, re-checked
-   whenever the data files change): the shipped table is exactly the documented rebuild of the raw
-   NIST SRD-144 file; the search tree is the dictionary of the shipped arrays; every element row
-   resolves identically from all four alias forms; every nuclide label resolves to its own row.
+   whenever the data files change): `shipped_faithful` (the shipped table is exactly the documented
+   rebuild of the raw NIST SRD-144 file), `tree_isBST`, `tree_is_dict`, `aliases_agree`,
+   `nuclides_resolve`, `nuclides_resolve_anycase`.
 -/
-namespace QcelVerif.PT
-open QcelVerif QcelVerif.PStr
-
-/-- the shipped tables (generated from `/repo` on every run) -/
-def shipped : Tables := { eliso := Gen.PT.tree, elements := Gen.PT.elements }
-
-/-! ## general theorems -/
-
-/-- **Letter case never matters**: two texts that agree after lower-casing resolve identically
-(any table, any ASCII text, strict or not). -/
-theorem resolve_case_insensitive (T : Tables) (s s' : Bytes) (h : lower s = lower s') (strict : Bool) :
-    T.resolve (.str s) strict = T.resolve (.str s') strict := by
-  unfold Tables.resolve Tables.resolveEliso
-  simp only [capitalize_congr h, pyInt_congr h]
-
-/-- every accessor inherits case-insensitivity -/
-theorem accessors_case_insensitive (T : Tables) (s s' : Bytes) (h : lower s = lower s') (strict : Bool) :
-    T.toE (.str s) strict = T.toE (.str s') strict ∧ T.toZ (.str s) strict = T.toZ (.str s') strict ∧
-    T.toName (.str s) strict = T.toName (.str s') strict ∧ T.toA (.str s) = T.toA (.str s') ∧
-    T.toMass (.str s) = T.toMass (.str s') ∧ T.toPeriod (.str s) = T.toPeriod (.str s') ∧
-    T.toGroup (.str s) = T.toGroup (.str s') := by
-  simp only [Tables.toE, Tables.toZ, Tables.toName, Tables.toA, Tables.toMass, Tables.toPeriod,
-    Tables.toGroup, resolve_case_insensitive T s s' h]
-  simp
-
-example : lower (ofString "kR84") = lower (ofString "Kr84") := by decide  -- hypothesis satisfiable
-
-/-- **No wrong species**: a successful lookup is always justified by one of the three alias
-relations — the capitalised text is itself a nuclide key, or its integer value is an atomic number
-of the table, or the capitalised text is an element name — so an unknown name can never return some
-other species' data. -/
-theorem no_wrong_species (T : Tables) (a : PyVal) (strict : Bool) (k : Nat)
-    (h : T.resolve a strict = some k) :
-    (∃ s, a = .str s ∧ k = pack (capitalize s) ∧ T.eliso.contains k = true) ∨
-    (∃ z, (a = .int z ∨ ∃ s, a = .str s ∧ pyInt s = some z) ∧ T.z2el z = some k) ∨
-    (∃ s, a = .str s ∧ T.name2el (pack (capitalize s)) = some k) := by
-  unfold Tables.resolve at h
-  cases hr : T.resolveEliso a with
-  | none => simp [hr] at h
-  | some k' =>
-    simp only [hr] at h
-    have hk : k' = k := by
-      split at h
-      · cases h
-      · exact Option.some.inj h
-    subst hk
-    cases a with
-    | int z => exact Or.inr (Or.inl ⟨z, Or.inl rfl, hr⟩)
-    | str s =>
-      simp only [Tables.resolveEliso] at hr
-      split at hr
-      · rename_i hc
-        exact Or.inl ⟨s, rfl, (Option.some.inj hr).symm, by rw [← Option.some.inj hr]; exact hc⟩
-      · split at hr
-        · rename_i e he
-          cases hp : pyInt s with
-          | none => simp [hp] at he
-          | some z =>
-            simp only [hp] at he
-            exact Or.inr (Or.inl ⟨z, Or.inr ⟨s, rfl, hp⟩, by rw [he, Option.some.inj hr]⟩)
-        · exact Or.inr (Or.inr ⟨s, rfl, hr⟩)
-
-/-- **Strict mode** accepts exactly the non-strict answers that are bare element symbols. -/
-theorem strict_exact (T : Tables) (a : PyVal) (k : Nat) :
-    T.resolve a true = some k ↔ (T.resolve a false = some k ∧ T.isElementSymbol k = true) := by
-  unfold Tables.resolve
-  cases T.resolveEliso a with
-  | none => simp
-  | some k' =>
-    cases hs : T.isElementSymbol k' with
-    | true => simp [hs]; intro h; rw [← h]; exact hs
-    | false => simp [hs]; intro h; rw [← h]; simp [hs]
-
-/-- **Period and group are the position in the standard 18-column table**, for every atomic
-number: the period ladder and the group membership lists of the code agree with the independent
-layout rule (noble gases close the periods; group from the offset in the period; f-block: none). -/
-theorem period_group_standard (z : Nat) : periodOfZ z = specPeriod z ∧ groupOfZ z = specGroup z := by
-  by_cases h : z < 119
-  · have key : ∀ z, z < 119 → (periodOfZ z = specPeriod z ∧ groupOfZ z = specGroup z) := by decide
-    exact key z h
-  · have hz : 119 ≤ z := by omega
-    constructor
-    · have e1 : periodOfZ z = 8 := by
-        simp only [periodOfZ]
-        repeat (first | rfl | (split; omega))
-      have e2 : specPeriod z = 8 := by
-        simp only [specPeriod, nobleGases, List.filter]
-        have : ∀ k, k ≤ 118 → decide (k < z) = true := by intro k hk; simp; omega
-        simp [this]
-      rw [e1, e2]
-    · have e2 : specGroup z = none := by
-        simp only [specGroup]; rw [if_pos (Or.inr (by omega))]
-      have e1 : groupOfZ z = none := by
-        simp only [groupOfZ, List.contains, List.elem]
-        have : ∀ k, k ≤ 118 → (z == k) = false := by intro k hk; simp; omega
-        simp [this]
-      rw [e1, e2]
-
-/-! ## table-wide theorems (kernel evaluation over the generated tables) -/
-
-set_option maxRecDepth 100000
-
-/-- **The shipped table is exactly NIST SRD-144 under the documented build rule**: element rows,
-nuclide rows in order, D/T under both spellings, masses digit for digit, and each bare element row
-equal to its most abundant — or, if unstable, longest-lived — isotope. -/
-theorem shipped_faithful :
-    PTBuild.rebuild Gen.Srd144.data Gen.Srd144.elementNames Gen.Srd144.longestLived
-        Gen.Srd144.aliases Gen.Srd144.newnames
-      = some (Gen.PT.elements, Gen.PT.nuclides) := by decide +kernel
-
-/-- the generated search tree is ordered … -/
-theorem tree_isBST : Gen.PT.tree.isBST = true := by decide +kernel
-
-/-- row predicate of `tree_is_dict` -/
-def treeRowOk (r : Nat × Nat × Nat × Nat) : Bool := Gen.PT.tree.lookup r.1 == some r.2
-
-/-- … and is exactly `dict(zip(EA, zip(_EE, A, mass)))`: every row is found with its own values and
-there are no other keys (so in particular EA has no duplicate keys). -/
-theorem tree_is_dict :
-    Gen.PT.nuclides.all treeRowOk = true ∧
-    Gen.PT.tree.size = Gen.PT.nuclides.length := by decide +kernel
-
-/-- row predicate of `aliases_agree` -/
-def aliasRowOk (r : Nat × Nat × Nat) : Bool :=
-  [PyVal.int r.1, .str (natDigits r.1), .str (unpack r.2.1), .str (unpack r.2.2)].all (fun a =>
-    [false, true].all (fun b =>
-      shipped.resolve a b == some r.2.1 &&
-      shipped.toZ a b == some r.1 && shipped.toE a b == some r.2.1 &&
-      shipped.toName a b == some r.2.2))
-
-/-- **Element aliases agree**: for every element row, atomic number as integer, as digit string,
-symbol and element name all resolve — strict or not — to the element's own symbol, and the
-accessors return that row's Z, symbol and name. -/
-theorem aliases_agree : shipped.elements.all aliasRowOk = true := by decide +kernel
-
-/-- row predicate of `nuclides_resolve` -/
-def nuclideRowOk (r : Nat × Nat × Nat × Nat) : Bool :=
-  let a := PyVal.str (unpack r.1)
-  shipped.resolve a false == some r.1 &&
-  shipped.toE a false == some r.2.1 && shipped.toZ a false == shipped.el2z r.2.1 &&
-  (shipped.el2z r.2.1).isSome &&
-  shipped.toA a == some r.2.2.1 && shipped.toMass a == some r.2.2.2 &&
-  shipped.resolve a true == (if shipped.isElementSymbol r.1 then some r.1 else none)
-
-/-- **Every nuclide label resolves to its own row** (and therefore, by `shipped_faithful`, to the
-NIST values): key, element symbol, atomic number, mass number, mass; and **strict mode rejects
-exactly the labels that are not bare element symbols**. -/
-theorem nuclides_resolve : Gen.PT.nuclides.all nuclideRowOk = true := by decide +kernel
-
-/-- row predicate of `nuclides_resolve_anycase` -/
-def nuclideRowAnycaseOk (r : Nat × Nat × Nat × Nat) : Bool :=
-  shipped.resolve (.str (lower (unpack r.1))) false == some r.1 &&
-  shipped.resolve (.str (upper (unpack r.1))) false == some r.1
-
-/-- lower- and upper-case spellings of every nuclide label (kernel-checked instances of
-`resolve_case_insensitive`, kept as an end-to-end test of the string model on the real table) -/
-theorem nuclides_resolve_anycase : Gen.PT.nuclides.all nuclideRowAnycaseOk = true := by decide +kernel
-
-/-! ## tests (labelled as tests): names outside the table are refused -/
-
-example : shipped.resolve (.str (ofString "He100")) false = none := by decide +kernel
-example : shipped.resolve (.str (ofString "4He")) false = none := by decide +kernel
-example : shipped.resolve (.str (ofString "1.0")) false = none := by decide +kernel
-example : shipped.resolve (.int (-1)) false = none := by decide +kernel
-example : shipped.resolve (.int 200) false = none := by decide +kernel
-example : shipped.resolve (.str (ofString "cat")) false = none := by decide +kernel
-example : shipped.resolve (.str (ofString "kr84")) true = none := by decide +kernel
-example : shipped.toMass (.str (ofString " 1 ")) = some (pack (ofString "1.00782503223")) := by decide +kernel
-
-end QcelVerif.PT
